@@ -63,6 +63,13 @@ func (e *Exec) callCommon(fr *frame, st *State, c *ssa.CallCommon, instr ssa.Ins
 		}
 	}
 	e.safety(st, "nil", smt.Neq(fv, NilFunc), pos)
+	// clock / sleep / yield sources configured through wazero/sys function types: assumed not to
+	// touch runtime state (they are host callbacks that only report time or wait)
+	if n, ok := c.Value.Type().(*types.Named); ok && n.Obj().Pkg() != nil && n.Obj().Pkg().Path() == ModulePath+"/sys" {
+		e.W.Note("assumed without effect on runtime state: calls of configured " + n.Obj().Name() + " function values")
+		e.bumpAlloc(st)
+		return e.freshVal(st, "cb", resType)
+	}
 	return e.unknownCall(st, "func value "+c.Value.Name()+" in "+shortFn(fr.fn), resType, pos)
 }
 
@@ -115,7 +122,7 @@ func (e *Exec) invoke(fr *frame, st *State, c *ssa.CallCommon, recv *smt.Term, a
 		}
 	}
 	// interface method contract?
-	key := ifaceKey(c.Value.Type(), c.Method.Name())
+	key := ifaceKeyOf(c)
 	if con := e.W.IfaceCons[key]; con != nil {
 		return e.applyContract(st, con, append([]*smt.Term{recv}, args...), resType, pos)
 	}
@@ -127,6 +134,18 @@ func (e *Exec) invoke(fr *frame, st *State, c *ssa.CallCommon, recv *smt.Term, a
 
 func ifaceKey(t types.Type, m string) string {
 	return typeName(t) + "." + m
+}
+
+// ifaceKeyOf identifies an interface method by the interface that declares it, so that a
+// contract on an embedded interface's method also applies through the embedding interface.
+func ifaceKeyOf(c *ssa.CallCommon) string {
+	if c.Method != nil {
+		if sig, ok := c.Method.Type().(*types.Signature); ok && sig.Recv() != nil {
+			return typeName(sig.Recv().Type()) + "." + c.Method.Name()
+		}
+		return ifaceKey(c.Value.Type(), c.Method.Name())
+	}
+	return ""
 }
 
 // callStatic: intrinsic model, contract, inline or havoc.
@@ -290,6 +309,11 @@ func (e *Exec) atTarget(fr *frame, st *State, h *hctx, fn *ssa.Function, args []
 		saveKeep := e.keepOnHavoc
 		e.keepOnHavoc = h.calleeKeep
 		defer func() { e.keepOnHavoc = saveKeep }()
+	}
+	if h.allocBound != nil && !h.apply {
+		saveAB := e.allocBound
+		e.allocBound = h.allocBound
+		defer func() { e.allocBound = saveAB }()
 	}
 	if h.con.NoSafety {
 		e.noSafety++
@@ -544,6 +568,8 @@ func (e *Exec) verifIntrinsic(fr *frame, st *State, name string, fn *ssa.Functio
 		key := "GH|" + args[0].Name
 		hs := smt.Array(AddrS, smt.Bool)
 		return smt.Select(e.heap(st, key, hs), IVal(args[1]))
+	case "verif_uf_u64":
+		return smt.App("uf|"+args[0].Name, BV64, IVal(args[1]))
 	case "verif_ghost_int":
 		return e.ghostInt(st, args[0].Name)
 	case "verif_modifies_all":
@@ -576,6 +602,9 @@ func (e *Exec) verifIntrinsic(fr *frame, st *State, name string, fn *ssa.Functio
 		e.heapSort[hk] = hs
 		e.heapSort[vk] = vs
 		h.frame.locs = append(h.frame.locs, frameLoc{hk, args[0]}, frameLoc{vk, args[0]})
+		return unit
+	case "verif_alloc_bound":
+		e.curH().allocBound = args[0]
 		return unit
 	case "verif_callees_preserve":
 		h := e.curH()
